@@ -630,7 +630,8 @@ def parseElse (t : Tbl) : Nat → List Tok → Option (Else × List Tok)
     else some (.none, ts)
 end
 
-/-- fuel that is always enough (Proofs/OalStmt.lean) -/
+/-- fuel that is enough for EVERY token list (`Proofs/OalFuel.lean`: `parseBlock_fuel_indep`, bound 2·|ts| + 2;
+    `parseStmts_complete`: a rejection by `parseStmts` is never an exhaustion of the fuel) -/
 def fuelForS (ts : List Tok) : Nat := 8 * ts.length + 16
 
 /-- `action : action_body : block` on the whole token stream -/
